@@ -154,6 +154,93 @@ def translate_method(src: str, cls: str, method: str, fields: dict[str, str], re
     return f"Definition {coq_name} {params} :=\n  {body}.\n"
 
 
+MAP_PRELUDE = """(* Python dict as an association list, newest binding first: d[k] = v is a cons, d.get(k, default) the first match *)
+Fixpoint gen_assoc_get {K V : Type} (eqb : K -> K -> bool) (k : K) (d : list (K * V)) : option V :=
+  match d with
+  | nil => None
+  | cons (k', v) r => if eqb k k' then Some v else gen_assoc_get eqb k r
+  end.
+"""
+
+
+def translate_map_method(src: str, cls: str, method: str, dict_field: str, key_param: str, value_param: str | None, coq_name: str) -> str:
+    """A method of `cls` that only works on the dict `self.<dict_field>` keyed by hash(<key_param>):
+    statements `self.d[hash(key)] = value`, `self.d.clear()`, `if len(self.d) <cmp> <int constant or module-level int>: ...`,
+    `return self.d.get(hash(key), NOT_SET)` (NOT_SET -> None).  Anything else: Untranslatable."""
+    tree = ast.parse(src)
+    consts = {}
+    for node in tree.body:
+        if isinstance(node, ast.Assign) and len(node.targets) == 1 and isinstance(node.targets[0], ast.Name) and isinstance(node.value, ast.Constant) \
+                and isinstance(node.value.value, int) and not isinstance(node.value.value, bool):
+            consts[node.targets[0].id] = node.value.value
+    fn = None
+    for node in ast.walk(tree):
+        if isinstance(node, ast.ClassDef) and node.name == cls:
+            for item in node.body:
+                if isinstance(item, ast.FunctionDef) and item.name == method:
+                    fn = item
+    if fn is None:
+        raise Untranslatable(f"{cls}.{method} not found")
+    args = [a.arg for a in fn.args.args]
+    want = ["self", key_param] + ([value_param] if value_param else [])
+    if args != want or fn.args.vararg or fn.args.kwarg or fn.args.kwonlyargs or fn.args.defaults:
+        raise Untranslatable(f"{cls}.{method}: parameters {args}, expected {want}")
+
+    def is_dict(e):
+        return isinstance(e, ast.Attribute) and isinstance(e.value, ast.Name) and e.value.id == "self" and e.attr == dict_field
+
+    def is_key(e):
+        return isinstance(e, ast.Call) and isinstance(e.func, ast.Name) and e.func.id == "hash" and len(e.args) == 1 and not e.keywords \
+            and isinstance(e.args[0], ast.Name) and e.args[0].id == key_param
+
+    def nat(e):
+        if isinstance(e, ast.Constant) and isinstance(e.value, int) and not isinstance(e.value, bool) and e.value >= 0:
+            return str(e.value)
+        if isinstance(e, ast.Name) and e.id in consts and consts[e.id] >= 0:
+            return str(consts[e.id])
+        if isinstance(e, ast.Call) and isinstance(e.func, ast.Name) and e.func.id == "len" and len(e.args) == 1 and is_dict(e.args[0]):
+            return "(length d)"
+        raise Untranslatable(f"{cls}.{method}: number {ast.dump(e)[:80]}")
+
+    def test(e):
+        if isinstance(e, ast.Compare) and len(e.ops) == 1:
+            a, b = nat(e.left), nat(e.comparators[0])
+            table = {ast.Eq: f"Nat.eqb {a} {b}", ast.NotEq: f"negb (Nat.eqb {a} {b})", ast.Lt: f"Nat.ltb {a} {b}", ast.LtE: f"Nat.leb {a} {b}",
+                     ast.Gt: f"Nat.ltb {b} {a}", ast.GtE: f"Nat.leb {b} {a}"}
+            if type(e.ops[0]) in table:
+                return "(" + table[type(e.ops[0])] + ")"
+        raise Untranslatable(f"{cls}.{method}: test {ast.dump(e)[:80]}")
+
+    def block(stmts, returns: bool) -> str:
+        """A term of type `list (K * V)` (state after the block) or, for a getter, `option V`."""
+        if not stmts:
+            if returns:
+                raise Untranslatable(f"{cls}.{method}: a path without return")
+            return "d"
+        s, rest = stmts[0], stmts[1:]
+        if isinstance(s, ast.Expr) and isinstance(s.value, ast.Constant) and isinstance(s.value.value, str):
+            return block(rest, returns)
+        if isinstance(s, ast.Assign) and len(s.targets) == 1 and isinstance(s.targets[0], ast.Subscript) and is_dict(s.targets[0].value) \
+                and is_key(s.targets[0].slice) and value_param and isinstance(s.value, ast.Name) and s.value.id == value_param:
+            return f"let d := cons (k, v) d in\n  {block(rest, returns)}"
+        if isinstance(s, ast.Expr) and isinstance(s.value, ast.Call) and isinstance(s.value.func, ast.Attribute) and s.value.func.attr == "clear" \
+                and is_dict(s.value.func.value) and not s.value.args and not s.value.keywords:
+            return f"let d := nil in\n  {block(rest, returns)}"
+        if isinstance(s, ast.If):
+            if returns:
+                raise Untranslatable(f"{cls}.{method}: `if` in a getter")
+            return (f"let d := (if {test(s.test)} then {block(s.body, False)} else {block(s.orelse, False)}) in\n  {block(rest, returns)}")
+        if isinstance(s, ast.Return) and returns and not rest and isinstance(s.value, ast.Call) and isinstance(s.value.func, ast.Attribute) \
+                and s.value.func.attr == "get" and is_dict(s.value.func.value) and len(s.value.args) == 2 and is_key(s.value.args[0]) \
+                and isinstance(s.value.args[1], ast.Name) and s.value.args[1].id == "NOT_SET" and not s.value.keywords:
+            return "gen_assoc_get eqb k d"
+        raise Untranslatable(f"{cls}.{method}: statement {ast.dump(s)[:100]}")
+
+    if value_param:
+        return (f"Definition {coq_name} {{K V : Type}} (d : list (K * V)) (k : K) (v : V) : list (K * V) :=\n  {block(fn.body, False)}.\n")
+    return (f"Definition {coq_name} {{K V : Type}} (eqb : K -> K -> bool) (d : list (K * V)) (k : K) : option V :=\n  {block(fn.body, True)}.\n")
+
+
 def translate_enum_rank(src: str, dict_name: str, enum_name: str, coq_name: str, coq_type: str) -> str:
     tree = ast.parse(src)
     for node in tree.body:
